@@ -265,9 +265,18 @@ class Kinds:
             ks = {self.of(e.body, f, depth), self.of(e.orelse, f, depth)}
             return ks.pop() if len(ks) == 1 else ("float" if "float" in ks else "unknown")
         if isinstance(e, ast.Name) and f is not None:
-            if e.id in f.params:
-                return "unknown"
             defs = []
+            if e.id in f.params:
+                # a parameter that is re-bound before this use (straight-line prelude) takes the kind of that binding
+                pre = [n for n in f.node.body if isinstance(n, ast.Assign) and any(isinstance(t, ast.Name) and t.id == e.id for t in n.targets) and n.lineno < getattr(e, "lineno", 0)]
+                others = [n for n in walk_local(f.node) if isinstance(n, (ast.Assign, ast.AugAssign)) and n not in pre and any(isinstance(t, ast.Name) and t.id == e.id for t in (n.targets if isinstance(n, ast.Assign) else [n.target]))]
+                if len(pre) == 1 and not others:
+                    v = pre[0].value
+                    # `step = int(step)`: the right-hand side may mention the parameter itself
+                    if isinstance(v, ast.Call) and ntext(v.func) in INT_FUNCS:
+                        return "int"
+                    return self.of(v, f, depth + 1) if not any(isinstance(x, ast.Name) and x.id == e.id for x in ast.walk(v)) else "unknown"
+                return "unknown"
             for n in walk_local(f.node):
                 if isinstance(n, ast.Assign) and any(isinstance(t, ast.Name) and t.id == e.id for t in n.targets):
                     defs.append(("expr", n.value))
